@@ -29,7 +29,7 @@ ASSUME = [
 SHARDS = {"quick": 16, "thorough": 16}
 BUDGET_S = {"quick": 40, "thorough": 900}
 
-VOID = ["br", "img", "hr", "input", "meta", "wbr"]
+VOID = ["br", "img", "hr", "input", "meta", "wbr", "area", "base", "col", "embed", "link", "param", "source", "track"]  # all fourteen void elements of the documented list
 TAGS = ["div", "p", "span", "a", "b", "ul", "li", "x-y", "h1", "table", "section"]
 
 
